@@ -90,6 +90,9 @@ class Ctx:
         self.findings = Findings()
         self.classify = None        # set by the property module: witness -> mechanism | None
         self.exhaustive = None
+        self.reach = None           # {file: [lines reached]} from reach.stop()
+        self.recent_noise = None    # set by noise.burst(): calls to OTHER library functions just made
+        self._noise_age = 0
 
     # ---- budgets -------------------------------------------------------
     def budget(self, quick, thorough=None):
@@ -108,6 +111,10 @@ class Ctx:
     def case(self, cls, key=None, nontrivial=True):
         """One evaluated case of input class `cls`; `key` (hashable) identifies it."""
         self.evaluations += 1
+        if self.recent_noise is not None:
+            self._noise_age += 1
+            if self._noise_age > 3:     # the history is attributed to the next three cases only
+                self.recent_noise = None
         if isinstance(cls, (list, tuple)):
             for c in cls:
                 self.classes[c] = self.classes.get(c, 0) + 1
@@ -144,6 +151,9 @@ class Ctx:
     # ---- verdict events ------------------------------------------------
     def violation(self, kind, witness):
         """A witness produced by the real code that refutes the property."""
+        if self.recent_noise is not None and isinstance(witness, dict) \
+                and "after_other_library_calls" not in witness:
+            witness = dict(witness, after_other_library_calls=self.recent_noise)
         rec = {"property": self.prop, "kind": kind, "witness": jsonable(witness)}
         mech = self.classify(rec) if self.classify else None
         if mech is not None:
@@ -198,7 +208,7 @@ class Ctx:
             "oracle_faults": self.oracle_faults, "notes": self.notes,
             "watchdog": self.watchdog, "rule": self.rule, "assumptions": self.assumptions,
             "extra": self.extra, "wall_s": time.time() - self.t0,
-            "exhaustive": self.exhaustive,
+            "exhaustive": self.exhaustive, "reach": self.reach,
         }
 
 
@@ -245,6 +255,13 @@ def merge_parts(parts, distinct_sets):
     for s in distinct_sets:
         union |= s
     base["distinct"] = len(union)
+    reach = None
+    for p in parts:
+        if p.get("reach") is not None:
+            reach = reach or {}
+            for path, lines in p["reach"].items():
+                reach[path] = sorted(set(reach.get(path, ())) | set(lines))
+    base["reach"] = reach
     return base
 
 
@@ -256,9 +273,21 @@ def finish(state, wall_s, failed_shards=0):
         got = state["classes"].get(cls, state["counters"].get(cls, 0))
         if got < n:
             unmet[cls] = {"need": n, "got": got}
+    line_reach, unreached = None, []
+    if state.get("reach") is not None:
+        from . import reach as _reach
+        try:
+            line_reach, unreached = _reach.report(state["reach"], prop)
+            import importlib
+            exempt = getattr(importlib.import_module("vmon.props." + prop), "REACH_EXEMPT", {})
+            if exempt:
+                line_reach["not_expected_to_be_entered"] = exempt
+                unreached = [u for u in unreached if u.split(":")[-1].split(".")[-1] not in exempt]
+        except Exception as exc:      # reach is evidence about the workload; its failure is never a verdict
+            line_reach = {"error": repr(exc)}
     if state["violations"] > 0:
         verdict, code = "violated", EXIT_VIOLATED
-    elif state["oracle_faults"] or unmet or failed_shards or state["evaluations"] == 0:
+    elif state["oracle_faults"] or unmet or unreached or failed_shards or state["evaluations"] == 0:
         verdict, code = "inconclusive", EXIT_INCONCLUSIVE
     else:
         verdict, code = "held_on_observed", EXIT_HELD
@@ -286,6 +315,9 @@ def finish(state, wall_s, failed_shards=0):
     }
     if state.get("exhaustive") is not None:
         coverage["exhaustive"] = bool(state["exhaustive"])
+    if line_reach is not None:
+        coverage["line_reach_of_anchored_code"] = line_reach
+        coverage["anchored_functions_never_entered"] = unreached
     coverage.update(state["extra"])
     evidence = {
         "property_id": prop, "tier": state["tier"], "seed": state["seed"],
@@ -311,6 +343,8 @@ def finish(state, wall_s, failed_shards=0):
     print("%s tier=%s seed=%d verdict=%s evaluations=%d distinct=%d violations=%d known=%s wall=%.1fs"
           % (prop, state["tier"], state["seed"], verdict, state["evaluations"], state["distinct"],
              state["violations"], {k: v["count"] for k, v in state["known_hits"].items()}, wall_s))
+    if unreached:
+        print("INCONCLUSIVE: anchored functions of which no line was executed: %s" % unreached)
     if unmet:
         print("INCONCLUSIVE: classes below threshold: %s" % unmet)
     if state["oracle_faults"]:
